@@ -6,7 +6,7 @@ from ..gen_a import Node
 PROP_FILE = 'props/C14.v'
 
 CLASSES = ['EFilter', '(EUser 0)', '(EUser 1)', '(EUser 2)', 'EValue', 'EKey', '(EUserBase 0)', 'EIndex', 'EIndex', 'EType', 'EType', 'EAttr', 'EAssert', 'ENotImpl', 'ERuntime', 'EZeroDiv']
-CATCH = [('EFilter',), ('(EUser 0)',), ('EFilter', '(EUser 2)'), ('EException',), ('ELookup', 'EValue'), ('(EUser 1)',), ('EIndex',), ('EKey', 'EFilter'), ('EType',), ('ERuntime',), ('EAttr', 'EAssert')]
+CATCH = [('EFilter',), ('(EUser 0)',), ('EFilter', '(EUser 2)'), ('EException',), ('ELookup', 'EValue'), ('(EUser 1)',), ('EIndex',), ('EKey', 'EFilter'), ('EType',), ('ERuntime',), ('EAttr', 'EAssert'), (), ()]
 
 
 def subset_nodes(r, nmax, budget):
